@@ -578,10 +578,24 @@ class WrappedTable:
         rel_name = f"{wrapped_field.field.name}"
         rel_type = f"Mapped[{target_wrapped_table.tablename}]"
         # relationships have to be post updated since since it won't work in the case of subclasses with another ref otherwise
-        rel_constructor = f"relationship('{target_wrapped_table.tablename}', uselist=False, foreign_keys=[{fk_name}], post_update=True)"
+        rel_constructor = f"relationship('{target_wrapped_table.tablename}', uselist=False, foreign_keys=[{fk_name}], post_update=True{self.remote_side_argument(target_wrapped_table)})"
         self.relationships.append(
             ColumnConstructor(rel_name, rel_type, rel_constructor)
         )
+
+    def remote_side_argument(self, target_wrapped_table: WrappedTable) -> str:
+        """
+        A reference into the own class hierarchy (e.g., a node referring to its parent node) is self-referential for
+        SQLAlchemy, which then takes it for a one-to-many relationship unless the remote side is stated.
+
+        :param target_wrapped_table: The table that is referred to.
+        :return: The remote side argument for the relationship, empty if not needed.
+        """
+        own_class = self.wrapped_clazz.clazz
+        target_class = target_wrapped_table.wrapped_clazz.clazz
+        if issubclass(own_class, target_class) or issubclass(target_class, own_class):
+            return f", remote_side='{target_wrapped_table.full_primary_key_name}'"
+        return ""
 
     def create_one_to_many_relationship(self, wrapped_field: WrappedField):
         """
